@@ -1,22 +1,20 @@
 \* generated by mkcfg_searchers.py; families and layouts: MCSearchers.tla
 SPECIFICATION Spec
 CONSTANTS
-  SegSizes <- Segs22
-  Deleted = {1}
+  SegSizes <- Segs0
+  Deleted = {}
   OneHitEnc = TRUE
   ScoreNone = FALSE
   HeapTakeover = 10
-  MaxCalls = 3
-  NTerms = 2
-  Family = "core2"
+  MaxCalls = 1
+  NTerms = 1
+  Family = "term"
   DropK1 = FALSE
   Queries <- MCQueries
-  FixEmptySnapshot = TRUE
+  FixEmptySnapshot = FALSE
   FixBoolAdvance = TRUE
   FixShouldMin = FALSE
   FirstAdvanceOK <- FirstAdvAlways
 VIEW View
-INVARIANT ResultOK
 INVARIANT NoPanic
-INVARIANT EnumIsHits
 CHECK_DEADLOCK FALSE
